@@ -23,8 +23,8 @@ ASSUMPTIONS = [
     "plain classes with ClassVar annotations are outside the domain (whether a ClassVar is a 'field' of a non-dataclass is not defined by the statement)",
 ]
 PLAN = {"quick": dict(cases=60000), "thorough": dict(cases=2000000)}
-FLOORS = {"quick": {"iteritems_checked": 50000, "itervalues_checked": 50000, "oneshot_checked": 8000, "kinds": 48},
-          "thorough": {"iteritems_checked": 1500000, "itervalues_checked": 1500000, "oneshot_checked": 250000, "kinds": 48}}
+FLOORS = {"quick": {"iteritems_checked": 50000, "itervalues_checked": 50000, "oneshot_checked": 8000, "kinds": 50},
+          "thorough": {"iteritems_checked": 1500000, "itervalues_checked": 1500000, "oneshot_checked": 250000, "kinds": 50}}
 
 
 @dataclasses.dataclass
@@ -208,6 +208,17 @@ class FalsyMapping(CustomMapping):
         return False
 
 
+class SharedCursor:
+    """An iterable that is not its own iterator, yet one-shot: every iter() hands out the SAME underlying stream (a cursor wrapper, a
+    file-like object). What was taken from it is gone."""
+
+    def __init__(self, items):
+        self._cursor = iter(list(items))
+
+    def __iter__(self):
+        return self._cursor
+
+
 class OneShot:
     """A one-shot iterator that knows what it will yield."""
 
@@ -344,8 +355,8 @@ def make(rng):
     if r < 0.92:
         pairs = rng.random() < 0.5
         items = [pair(rng) for _ in range(n)] if pairs else [nonpair_atom(rng) for _ in range(n)]
-        kind = rng.choice(["OneShot", "generator", "iter(list)", "map"])
-        mk = {"OneShot": OneShot, "generator": gen_of, "iter(list)": lambda x: iter(list(x)), "map": lambda x: map(lambda e: e, list(x))}[kind]
+        kind = rng.choice(["OneShot", "generator", "iter(list)", "map", "SharedCursor"])
+        mk = {"OneShot": OneShot, "generator": gen_of, "iter(list)": lambda x: iter(list(x)), "map": lambda x: map(lambda e: e, list(x)), "SharedCursor": SharedCursor}[kind]
         ref_items = list(items) if pairs and items else list(enumerate(items))
         return kind + ("-pairs" if pairs and items else "-plain"), (lambda: mk(items)), ref_items, list(items)
     s = rng.choice(["", "a", "string", "日本", "ab"])
